@@ -134,6 +134,122 @@ type Universe struct {
 	Resolvers map[string]bool         // "Obj.field" -> has a resolver function in the Stub
 	Foreign   map[string]reflect.Value
 	cur       atomic.Pointer[Exec]
+	cplx      atomic.Pointer[map[string]CSpec]
+	// ComplexityFields: "Obj.field" members present in the generated ComplexityRoot
+	ComplexityFields map[string]bool
+}
+
+// CSpec describes one custom complexity function: a*child + b*max(0, first int argument) + c,
+// computed with saturation (a monotone function of the child complexity, as the docs' examples).
+type CSpec struct {
+	A int64 `json:"a"`
+	B int64 `json:"b"`
+	C int64 `json:"c"`
+}
+
+const MaxInt = int64(^uint(0) >> 1)
+
+func satMul(a, b int64) int64 {
+	if a == 0 || b == 0 {
+		return 0
+	}
+	if a > MaxInt/b {
+		return MaxInt
+	}
+	return a * b
+}
+
+func satAdd(a, b int64) int64 {
+	if b > 0 && a > MaxInt-b {
+		return MaxInt
+	}
+	if b < 0 && a < -MaxInt-b {
+		return -MaxInt
+	}
+	return a + b
+}
+
+// Eval is the value the custom function returns.
+func (c CSpec) Eval(child int64, x int64) int64 {
+	if x < 0 {
+		x = 0
+	}
+	return satAdd(satAdd(satMul(c.A, child), satMul(c.B, x)), c.C)
+}
+
+// SetComplexity installs the custom complexity functions ("Obj.field" -> spec); fields not listed
+// behave as if no function was assigned? No: a ComplexityRoot member cannot be unassigned per
+// request, so an unlisted field's function returns -1, which gqlgen ignores by documentation.
+func (u *Universe) SetComplexity(m map[string]CSpec) { u.cplx.Store(&m) }
+
+// FillComplexity sets every member of a generated ComplexityRoot.
+func (u *Universe) FillComplexity(root any, toGo func(string) string) {
+	u.ComplexityFields = map[string]bool{}
+	rv := reflect.ValueOf(root).Elem()
+	rt := rv.Type()
+	for i := 0; i < rt.NumField(); i++ {
+		of := rt.Field(i)
+		if of.Type.Kind() != reflect.Struct {
+			continue
+		}
+		var def *ast.Definition
+		for _, d := range u.Schema.Types {
+			if d.Kind == ast.Object && (toGo(d.Name) == of.Name || ucFirst(d.Name) == of.Name) {
+				def = d
+			}
+		}
+		if def == nil {
+			continue
+		}
+		for j := 0; j < of.Type.NumField(); j++ {
+			ff := of.Type.Field(j)
+			if ff.Type.Kind() != reflect.Func {
+				continue
+			}
+			fd := u.fieldForGoName(def, ff.Name, toGo)
+			if fd == nil {
+				continue
+			}
+			name := def.Name + "." + fd.Name
+			u.ComplexityFields[name] = true
+			ft := ff.Type
+			rv.Field(i).Field(j).Set(reflect.MakeFunc(ft, func(in []reflect.Value) []reflect.Value {
+				child := in[0].Int()
+				var x int64
+				for _, a := range in[1:] {
+					v := a
+					if v.Kind() == reflect.Ptr {
+						if v.IsNil() {
+							continue
+						}
+						v = v.Elem()
+					}
+					if v.Kind() == reflect.Int || v.Kind() == reflect.Int32 || v.Kind() == reflect.Int64 {
+						x = v.Int()
+						break
+					}
+				}
+				out := int64(-1)
+				if m := u.cplx.Load(); m != nil {
+					if spec, ok := (*m)[name]; ok {
+						out = spec.Eval(child, x)
+					}
+				}
+				return []reflect.Value{reflect.ValueOf(int(out)).Convert(ft.Out(0))}
+			}))
+		}
+	}
+}
+
+func ucFirst(s string) string {
+	if s == "" {
+		return s
+	}
+	b := []byte(s)
+	if b[0] >= 'a' && b[0] <= 'z' {
+		b[0] -= 32
+	}
+	return string(b)
 }
 
 func New(name string, schema *ast.Schema, types map[string]reflect.Type) *Universe {
